@@ -188,6 +188,7 @@ type c06Shape struct {
 	combo       bool // generated combination of several credentials
 	routeProbe  bool // combination that is also sent through every route (the others only to checkAuth)
 	denySweep   bool // probed under every deny list of the enumeration
+	ipSweep     bool // (prefix length, peer position) family of IP-restricted certificates: own loops
 }
 
 // key fingerprints as the model sees them: small numbers
@@ -353,7 +354,72 @@ func c06Tok(trusted, alg, tampered, iss, aud bool, kind int, nbf, exp, iat int64
 
 type c06Chain struct{ len2, role, trusted bool }
 
-func c06TLS(chains []c06Chain, cn int, denied bool, nb int64, ipErr, ipValid, automation bool) string {
+// the address side of a presented certificate as the model sees it (Coq terms): did a library step in
+// front of the netblock arithmetic fail, the decoded address delegation extension, the TCP peer
+type c06IP struct {
+	err       bool
+	ext, peer string
+}
+
+const c06DefaultRemote = "10.1.2.3:34567" // verifNewRequest
+
+var c06NoIP = c06IP{ext: "None", peer: c06PeerCoq(c06DefaultRemote)}
+
+// a netblock: base address and prefix length
+type c06Block struct {
+	base uint32
+	p    int
+}
+
+func (b c06Block) String() string {
+	return fmt.Sprintf("%d.%d.%d.%d/%d", b.base>>24, b.base>>16&255, b.base>>8&255, b.base&255, b.p)
+}
+
+func (b c06Block) ipnet() net.IPNet { return mustCIDR(b.String()) }
+
+// the property's own notion of "inside", in numbers: the peer and the block agree on the leading p bits
+// (written without net.IPNet and without the code under test)
+func (b c06Block) holds(addr uint32) bool {
+	if b.p == 0 {
+		return true
+	}
+	return addr>>uint(32-b.p) == b.base>>uint(32-b.p)
+}
+
+func c06ExtCoq(blocks []c06Block) string {
+	var xs []string
+	for _, b := range blocks {
+		xs = append(xs, fmt.Sprintf("blk %d %d %d %d %d", b.base>>24, b.base>>16&255, b.base>>8&255, b.base&255, b.p))
+	}
+	return "(xext [" + strings.Join(xs, "; ") + "])"
+}
+
+func c06V4(a uint32) string { return fmt.Sprintf("%d.%d.%d.%d", a>>24, a>>16&255, a>>8&255, a&255) }
+
+// the host of a RemoteAddr as net.ParseIP sees it (library parsing stays in front of the model)
+func c06PeerCoq(remote string) string {
+	host, _, err := net.SplitHostPort(remote)
+	if err != nil {
+		return "pgarbage"
+	}
+	ip := net.ParseIP(host)
+	if ip == nil {
+		return "pgarbage"
+	}
+	if v4 := ip.To4(); v4 != nil {
+		return fmt.Sprintf("(p4 %d %d %d %d)", v4[0], v4[1], v4[2], v4[3])
+	}
+	return "p6"
+}
+
+func c06IPOf(blocks []c06Block, remote string) c06IP {
+	if remote == "" {
+		remote = c06DefaultRemote
+	}
+	return c06IP{ext: c06ExtCoq(blocks), peer: c06PeerCoq(remote)}
+}
+
+func c06TLS(chains []c06Chain, cn int, denied bool, nb int64, ip c06IP, automation bool) string {
 	key := c06KeyMain
 	if denied {
 		key = c06KeyDenied
@@ -362,8 +428,8 @@ func c06TLS(chains []c06Chain, cn int, denied bool, nb int64, ipErr, ipValid, au
 	for _, c := range chains {
 		cs = append(cs, fmt.Sprintf("{| ch_len2 := %s; ch_role_ca := %s; ch_key_trusted := %s |}", coqBool(c.len2), coqBool(c.role), coqBool(c.trusted)))
 	}
-	return fmt.Sprintf("(Some {| x_chains := [%s]; x_cn := %d; x_key := %d; x_nb := %s; x_ip_error := %s; x_ip_valid := %s; x_auto_error := false; x_automation := %s; x_revoked := false |})",
-		strings.Join(cs, "; "), cn, key, coqZ(nb), coqBool(ipErr), coqBool(ipValid), coqBool(automation))
+	return fmt.Sprintf("(Some {| x_chains := [%s]; x_cn := %d; x_key := %d; x_nb := %s; x_ip_error := %s; x_ext := %s; x_peer := %s; x_auto_error := false; x_automation := %s; x_revoked := false |})",
+		strings.Join(cs, "; "), cn, key, coqZ(nb), coqBool(ip.err), ip.ext, ip.peer, coqBool(automation))
 }
 
 func c06Shapes(env *verifEnv, m *c06Material) []c06Shape {
@@ -484,74 +550,173 @@ func c06Shapes(env *verifEnv, m *c06Material) []c06Shape {
 	mainCh := []c06Chain{{true, false, true}}
 	roleCh := []c06Chain{{true, true, true}}
 	leafAlice, chAlice := verifClientChain(mainCA, st.Signer, "alice", nb, &m.keys.ec.PublicKey, nil)
-	cert(c06Shape{name: "cert-km-alice", class: "cert-km", core: true, denySweep: true, tls: c06TLS(mainCh, 1, false, now-300, false, false, false), certUser: "alice", kmCert: true}, chAlice, "", [2]string{})
-	cert(c06Shape{name: "cert-km-alice-1chain", class: "cert-1chain", tls: c06TLS([]c06Chain{{false, false, false}}, 1, false, now-300, false, false, false), certUser: "alice"},
+	cert(c06Shape{name: "cert-km-alice", class: "cert-km", core: true, denySweep: true, tls: c06TLS(mainCh, 1, false, now-300, c06NoIP, false), certUser: "alice", kmCert: true}, chAlice, "", [2]string{})
+	cert(c06Shape{name: "cert-km-alice-1chain", class: "cert-1chain", tls: c06TLS([]c06Chain{{false, false, false}}, 1, false, now-300, c06NoIP, false), certUser: "alice"},
 		[][]*x509.Certificate{{leafAlice}}, "", [2]string{})
 	_, chAdmin := verifClientChain(mainCA, st.Signer, "admin", nb, &m.keys.ec.PublicKey, nil)
-	cert(c06Shape{name: "cert-km-admin", class: "cert-km-admin", denySweep: true, tls: c06TLS(mainCh, 3, false, now-300, false, false, false), certUser: "admin", kmCert: true}, chAdmin, "", [2]string{})
+	cert(c06Shape{name: "cert-km-admin", class: "cert-km-admin", denySweep: true, tls: c06TLS(mainCh, 3, false, now-300, c06NoIP, false), certUser: "admin", kmCert: true}, chAdmin, "", [2]string{})
 	_, chAuto := verifClientChain(mainCA, st.Signer, "autoadm", nb, &m.keys.ec.PublicKey, nil)
-	cert(c06Shape{name: "cert-km-autoadm", class: "cert-km-autoadm", tls: c06TLS(mainCh, 5, false, now-300, false, false, false), certUser: "autoadm", kmCert: true}, chAuto, "", [2]string{})
+	cert(c06Shape{name: "cert-km-autoadm", class: "cert-km-autoadm", tls: c06TLS(mainCh, 5, false, now-300, c06NoIP, false), certUser: "autoadm", kmCert: true}, chAuto, "", [2]string{})
 	{
 		leaf, _ := verifClientChain(m.foreignCA.Raw, m.foreignKey, "alice", nb, &m.keys.ec.PublicKey, nil)
-		cert(c06Shape{name: "cert-foreign-ca", class: "cert-foreign", tls: c06TLS([]c06Chain{{true, false, false}}, 1, false, now-300, false, false, false), certUser: "alice"},
+		cert(c06Shape{name: "cert-foreign-ca", class: "cert-foreign", tls: c06TLS([]c06Chain{{true, false, false}}, 1, false, now-300, c06NoIP, false), certUser: "alice"},
 			[][]*x509.Certificate{{leaf, m.foreignCA}}, "", [2]string{})
 		// a client CA the TLS layer trusts (the admin CA is in the service port's pool) that is not a keymaster key
 		leaf2, _ := verifClientChainRSA(env, "admin", nb, &m.keys.ec.PublicKey)
 		if leaf2 != nil {
-			cert(c06Shape{name: "cert-admin-ca", class: "cert-foreign", tls: c06TLS([]c06Chain{{true, false, false}}, 3, false, now-300, false, false, false), certUser: "admin"},
+			cert(c06Shape{name: "cert-admin-ca", class: "cert-foreign", tls: c06TLS([]c06Chain{{true, false, false}}, 3, false, now-300, c06NoIP, false), certUser: "admin"},
 				[][]*x509.Certificate{{leaf2, env.adminCA}}, "", [2]string{})
 		}
 	}
 	_, chDenied := verifClientChain(mainCA, st.Signer, "alice", nb, &m.deniedKeys.ec.PublicKey, nil)
-	cert(c06Shape{name: "cert-km-denied-key", class: "cert-km", core: true, denySweep: true, tls: c06TLS(mainCh, 1, true, now-300, false, false, false), certUser: "alice", kmCert: true, keyID: c06KeyDenied}, chDenied, "", [2]string{})
+	cert(c06Shape{name: "cert-km-denied-key", class: "cert-km", core: true, denySweep: true, tls: c06TLS(mainCh, 1, true, now-300, c06NoIP, false), certUser: "alice", kmCert: true, keyID: c06KeyDenied}, chDenied, "", [2]string{})
 	_, chEmpty := verifClientChain(mainCA, st.Signer, "", nb, &m.keys.ec.PublicKey, nil)
-	cert(c06Shape{name: "cert-km-empty-cn", class: "cert-empty-cn", tls: c06TLS(mainCh, 0, false, now-300, false, false, false)}, chEmpty, "", [2]string{})
+	cert(c06Shape{name: "cert-km-empty-cn", class: "cert-empty-cn", tls: c06TLS(mainCh, 0, false, now-300, c06NoIP, false)}, chEmpty, "", [2]string{})
 	// multi-chain connection states (same leaf, several verified paths)
-	cert(c06Shape{name: "cert-km-alice-chains-1+2", class: "cert-km", tls: c06TLS([]c06Chain{{false, false, false}, {true, false, true}}, 1, false, now-300, false, false, false), certUser: "alice", kmCert: true},
+	cert(c06Shape{name: "cert-km-alice-chains-1+2", class: "cert-km", tls: c06TLS([]c06Chain{{false, false, false}, {true, false, true}}, 1, false, now-300, c06NoIP, false), certUser: "alice", kmCert: true},
 		[][]*x509.Certificate{{leafAlice}, {leafAlice, mainCACert}}, "", [2]string{})
-	cert(c06Shape{name: "cert-km-alice-chains-foreign+main", class: "cert-km", denySweep: true, tls: c06TLS([]c06Chain{{true, false, false}, {true, false, true}}, 1, false, now-300, false, false, false), certUser: "alice", kmCert: true},
+	cert(c06Shape{name: "cert-km-alice-chains-foreign+main", class: "cert-km", denySweep: true, tls: c06TLS([]c06Chain{{true, false, false}, {true, false, true}}, 1, false, now-300, c06NoIP, false), certUser: "alice", kmCert: true},
 		[][]*x509.Certificate{{leafAlice, m.foreignCA}, {leafAlice, mainCACert}}, "", [2]string{})
-	cert(c06Shape{name: "cert-km-alice-chains-role+main", class: "cert-km", tls: c06TLS([]c06Chain{{true, true, true}, {true, false, true}}, 1, false, now-300, false, false, false), certUser: "alice", kmCert: true},
+	cert(c06Shape{name: "cert-km-alice-chains-role+main", class: "cert-km", tls: c06TLS([]c06Chain{{true, true, true}, {true, false, true}}, 1, false, now-300, c06NoIP, false), certUser: "alice", kmCert: true},
 		[][]*x509.Certificate{{leafAlice, roleCACert}, {leafAlice, mainCACert}}, "", [2]string{})
 	// IP-restricted automation certificates (role CA), 10.0.0.0/8
 	ten := []net.IPNet{mustCIDR("10.0.0.0/8")}
 	chIP := env.ipRestrictedChain("svc-automation", ten, &m.keys.ec.PublicKey)
 	ipNB := chIP[0][0].NotBefore.Unix()
-	ipShape := func(name, class string, valid, core bool) c06Shape {
-		return c06Shape{name: name, class: class, core: core, tls: c06TLS(roleCh, 4, false, ipNB, false, valid, true), certUser: "svc-automation", ipCert: valid}
+	tenB := []c06Block{{10 << 24, 8}}
+	ipShape := func(name, class, remote string, valid, core bool, hdr [2]string) {
+		cert(c06Shape{name: name, class: class, core: core, tls: c06TLS(roleCh, 4, false, ipNB, c06IPOf(tenB, remote), true), certUser: "svc-automation", ipCert: valid},
+			chIP, remote, hdr)
 	}
-	cert(ipShape("cert-ip-inside", "cert-ip-inside", true, true), chIP, "10.1.2.3:4711", [2]string{})
-	cert(ipShape("cert-ip-outside", "cert-ip-outside", false, true), chIP, "192.168.1.1:4711", [2]string{})
-	cert(ipShape("cert-ip-outside-xff", "cert-ip-outside", false, false), chIP, "192.0.2.7:4711", [2]string{"X-Forwarded-For", "10.1.2.3"})
-	cert(ipShape("cert-ip-loopback", "cert-ip-outside", false, false), chIP, "127.0.0.1:4711", [2]string{})
-	cert(ipShape("cert-ip-loopback-xff", "cert-ip-outside", false, false), chIP, "127.0.0.1:4711", [2]string{"X-Forwarded-For", "10.1.2.3"})
-	cert(ipShape("cert-ip-loopback-xrealip", "cert-ip-outside", false, false), chIP, "127.0.0.1:4711", [2]string{"X-Real-Ip", "10.1.2.3"})
-	cert(ipShape("cert-ip-loopback6-forwarded", "cert-ip-outside", false, false), chIP, "[::1]:4711", [2]string{"Forwarded", "for=10.1.2.3"})
+	ipShape("cert-ip-inside", "cert-ip-inside", "10.1.2.3:4711", true, true, [2]string{})
+	ipShape("cert-ip-outside", "cert-ip-outside", "192.168.1.1:4711", false, true, [2]string{})
+	ipShape("cert-ip-outside-xff", "cert-ip-outside", "192.0.2.7:4711", false, false, [2]string{"X-Forwarded-For", "10.1.2.3"})
+	ipShape("cert-ip-loopback", "cert-ip-outside", "127.0.0.1:4711", false, false, [2]string{})
+	ipShape("cert-ip-loopback-xff", "cert-ip-outside", "127.0.0.1:4711", false, false, [2]string{"X-Forwarded-For", "10.1.2.3"})
+	ipShape("cert-ip-loopback-xrealip", "cert-ip-outside", "127.0.0.1:4711", false, false, [2]string{"X-Real-Ip", "10.1.2.3"})
+	ipShape("cert-ip-loopback6-forwarded", "cert-ip-outside", "[::1]:4711", false, false, [2]string{"Forwarded", "for=10.1.2.3"})
 	chIPAlice := env.ipRestrictedChain("alice", ten, &m.keys.ec.PublicKey)
-	cert(c06Shape{name: "cert-ip-inside-not-automation", class: "cert-ip-not-automation", tls: c06TLS(roleCh, 1, false, chIPAlice[0][0].NotBefore.Unix(), false, true, false), certUser: "alice"},
+	cert(c06Shape{name: "cert-ip-inside-not-automation", class: "cert-ip-not-automation", tls: c06TLS(roleCh, 1, false, chIPAlice[0][0].NotBefore.Unix(), c06IPOf(tenB, "10.1.2.3:4711"), false), certUser: "alice"},
 		chIPAlice, "10.1.2.3:4711", [2]string{})
 	// hypothetical: the address extension inside a certificate issued by the MAIN CA
 	if ext, err := c06DelegationExt(ten); err == nil {
 		_, chBoth := verifClientChain(mainCA, st.Signer, "svc-automation", nb, &m.keys.ec.PublicKey, []pkix.Extension{ext})
-		cert(c06Shape{name: "cert-main-ca-with-ext-inside", class: "cert-km+ip", tls: c06TLS(mainCh, 4, false, now-300, false, true, true), certUser: "svc-automation", kmCert: true, ipCert: true},
+		cert(c06Shape{name: "cert-main-ca-with-ext-inside", class: "cert-km+ip", tls: c06TLS(mainCh, 4, false, now-300, c06IPOf(tenB, "10.1.2.3:4711"), true), certUser: "svc-automation", kmCert: true, ipCert: true},
 			chBoth, "10.1.2.3:4711", [2]string{})
-		cert(c06Shape{name: "cert-main-ca-with-ext-outside", class: "cert-km", tls: c06TLS(mainCh, 4, false, now-300, false, false, true), certUser: "svc-automation", kmCert: true},
+		cert(c06Shape{name: "cert-main-ca-with-ext-outside", class: "cert-km", tls: c06TLS(mainCh, 4, false, now-300, c06IPOf(tenB, "192.168.1.1:4711"), true), certUser: "svc-automation", kmCert: true},
 			chBoth, "192.168.1.1:4711", [2]string{})
 		// a corrupted extension (bit string longer than an address) signed by the role CA
 		bad, _ := asn1.Marshal([]certgen.IpAdressFamily{{AddressFamily: []byte{0, 1, 1}, Addresses: []asn1.BitString{{Bytes: []byte{10, 0, 0, 0, 0}, BitLength: 40}}}})
 		_, chBad := verifClientChain(st.selfRoleCaCertDer, st.Signer, "svc-automation", nb, &m.keys.ec.PublicKey, []pkix.Extension{{Id: ext.Id, Value: bad}})
-		cert(c06Shape{name: "cert-ip-corrupt-ext", class: "cert-ip-corrupt", tls: c06TLS(roleCh, 4, false, now-300, true, false, true), certUser: "svc-automation"},
+		cert(c06Shape{name: "cert-ip-corrupt-ext", class: "cert-ip-corrupt", tls: c06TLS(roleCh, 4, false, now-300, c06IP{ext: "(Some [(IPExt.ipv4_family, [([10; 0; 0; 0; 0], 40)])])", peer: c06PeerCoq("10.1.2.3:4711")}, true), certUser: "svc-automation"},
 			chBad, "10.1.2.3:4711", [2]string{})
 	}
 	// certificate and session together (the certificate branch comes first)
 	{
 		v := env.sessionJWT("alice", lvl, now-60, now-60, now+7200)
-		cert(c06Shape{name: "cert-km-admin+cookie-alice", class: "cert-km-admin", tls: c06TLS(mainCh, 3, false, now-300, false, false, false),
+		cert(c06Shape{name: "cert-km-admin+cookie-alice", class: "cert-km-admin", tls: c06TLS(mainCh, 3, false, now-300, c06NoIP, false),
 			cred: c06Token(true, true, false, true, true, 0, now-60, now+7200, now-60, 1, lvl), certUser: "admin", kmCert: true,
 			cookieValid: true, cookieUser: "alice", cookieLevel: lvl, apply: func(r *http.Request) { r.AddCookie(authCookie(v)) }}, chAdmin, "", [2]string{})
-		cert(c06Shape{name: "cert-ip-outside+cookie-alice", class: "cert-ip-outside+cookie", tls: c06TLS(roleCh, 4, false, ipNB, false, false, true),
+		cert(c06Shape{name: "cert-ip-outside+cookie-alice", class: "cert-ip-outside+cookie", tls: c06TLS(roleCh, 4, false, ipNB, c06IPOf(tenB, "192.168.1.1:4711"), true),
 			cred: c06Token(true, true, false, true, true, 0, now-60, now+7200, now-60, 1, lvl), certUser: "svc-automation",
 			cookieValid: true, cookieUser: "alice", cookieLevel: lvl, apply: func(r *http.Request) { r.AddCookie(authCookie(v)) }}, chIP, "192.168.1.1:4711", [2]string{})
+	}
+	// ---- IP-restricted certificates: (prefix length, peer position).  Prefixes that end inside an octet
+	// as well as aligned ones; peers inside (first, last, some address of the block, IPv4-mapped), just
+	// outside (first address above, last below), outside but sharing every whole leading octet of the
+	// prefix (the remaining bits of the partial octet differ), outside in the last whole octet, far away,
+	// IPv6 (also one whose leading bytes are the block's), IPv4-mapped outside.  "Inside" for the oracle is
+	// c06Block.holds (numbers); for the model it is IPExt.verify_families on (extension, peer).
+	{
+		rng := verifRand()
+		prefixes := []int{0, 1, 7, 8, 9, 12, 16, 20, 23, 24, 26, 31, 32}
+		if verifThorough() {
+			prefixes = nil
+			for p := 0; p <= 32; p++ {
+				prefixes = append(prefixes, p)
+			}
+		}
+		type peerT struct {
+			pos    string // position class
+			addr   uint32
+			remote string
+		}
+		addShapes := func(tag string, blocks []c06Block, chain [][]*x509.Certificate, peers []peerT) {
+			nbU := chain[0][0].NotBefore.Unix()
+			for _, pe := range peers {
+				inside := false
+				if pe.pos != "v6" && pe.pos != "v6-same-leading-bytes" {
+					for _, b := range blocks {
+						if b.holds(pe.addr) {
+							inside = true
+						}
+					}
+				}
+				class := "cert-ip-outside-" + pe.pos
+				if inside {
+					class = "cert-ip-inside"
+				}
+				if inside != strings.HasPrefix(pe.pos, "inside") { // the generator's label and the arithmetic (both the harness's own) agree
+					panic(fmt.Sprintf("C06 harness: peer %s labelled %s for %s", pe.remote, pe.pos, tag))
+				}
+				cert(c06Shape{name: fmt.Sprintf("cert-ip%s-from-%s(%s)", tag, pe.remote, pe.pos), class: class, ipSweep: true,
+					tls: c06TLS(roleCh, 4, false, nbU, c06IPOf(blocks, pe.remote), true), certUser: "svc-automation", ipCert: inside}, chain, pe.remote, [2]string{})
+			}
+		}
+		v4 := func(pos string, a uint32) peerT { return peerT{pos, a, c06V4(a) + ":4711"} }
+		mapped := func(pos string, a uint32) peerT { return peerT{pos, a, "[::ffff:" + c06V4(a) + "]:4711"} }
+		for _, p := range prefixes {
+			var hostMask uint32 = 0xffffffff
+			if p > 0 {
+				hostMask = uint32(uint64(1)<<uint(32-p) - 1)
+			}
+			base := rng.Uint32() &^ hostMask
+			if p >= 1 {
+				base |= 1 << 31 // keep "far" (top bit flipped) and the wrap-around cases apart
+				if p >= 2 {
+					base &^= 1 << 30 // not 255.x: the first address above exists
+				}
+			}
+			base &^= hostMask
+			blk := c06Block{base, p}
+			last := base | hostMask
+			host := func() uint32 { return rng.Uint32() & hostMask }
+			peers := []peerT{v4("inside-first", base), v4("inside-last", last), v4("inside", base|host()), mapped("inside-v4mapped", base|host())}
+			if last != 0xffffffff {
+				peers = append(peers, v4("above", last+1))
+			}
+			if base != 0 {
+				peers = append(peers, v4("below", base-1))
+			}
+			if p%8 != 0 {
+				hi, lo := uint(31-8*(p/8)), uint(32-p) // highest and lowest prefix bit of the partial octet
+				peers = append(peers, v4("partial-octet", (base^(1<<lo))|host()))
+				if hi != lo {
+					peers = append(peers, v4("partial-octet", (base^(1<<hi))|host()))
+				}
+				peers = append(peers, mapped("partial-octet-v4mapped", (base^(1<<lo))|host()))
+			} else if p >= 8 {
+				peers = append(peers, v4("last-octet", (base^(1<<uint(32-p)))|host()))
+			}
+			if p >= 1 {
+				peers = append(peers, v4("far", (base^(1<<31))|(rng.Uint32()&0x7fffffff&hostMask)))
+				peers = append(peers, mapped("far-v4mapped", (base^(1<<31))|host()))
+			}
+			peers = append(peers, peerT{"v6", 0, "[2001:db8::7:1]:4711"},
+				peerT{"v6-same-leading-bytes", 0, fmt.Sprintf("[%x:%x::1]:4711", base>>16, base&0xffff)})
+			addShapes("["+blk.String()+"]", []c06Block{blk}, env.ipRestrictedChain("svc-automation", []net.IPNet{blk.ipnet()}, &m.keys.ec.PublicKey), peers)
+		}
+		// several netblocks in one certificate: the matching one is not the first, the others do not match
+		multi := []c06Block{{192<<24 | 168<<16 | 4<<8 | 64, 26}, {10<<24 | 20<<16 | 16<<8, 20}, {172<<24 | 16<<16, 12}}
+		var nets []net.IPNet
+		for _, b := range multi {
+			nets = append(nets, b.ipnet())
+		}
+		a4 := func(a, b, c, d uint32) uint32 { return a<<24 | b<<16 | c<<8 | d }
+		addShapes("[3 blocks]", multi, env.ipRestrictedChain("svc-automation", nets, &m.keys.ec.PublicKey), []peerT{
+			v4("inside", a4(192, 168, 4, 100)), v4("inside", a4(10, 20, 31, 9)), v4("inside", a4(172, 31, 255, 254)),
+			v4("partial-octet", a4(192, 168, 4, 130)), v4("partial-octet", a4(192, 168, 4, 7)), v4("partial-octet", a4(10, 20, 40, 7)), v4("partial-octet", a4(10, 20, 0, 1)),
+			v4("partial-octet", a4(172, 32, 0, 1)), v4("partial-octet", a4(172, 0, 0, 1)), v4("last-octet", a4(192, 168, 5, 100)), v4("far", a4(8, 8, 8, 8))})
 	}
 	// ---- combinations: client certificate x auth_cookie x basic-auth header, each present or
 	// absent, valid or not, on one request.  Parts are combined mechanically; the precedence is
@@ -609,11 +774,11 @@ func c06Shapes(env *verifEnv, m *c06Material) []c06Shape {
 			apply: func(r *http.Request) { withTLS(r, chains, remote) }}
 	}
 	certs := []part{{name: "", coq: "None", route: true},
-		tlsPart("cert-km-alice", "cert-km", c06TLS(mainCh, 1, false, now-300, false, false, false), chAlice, "", "alice", true, c06KeyMain, false, true),
-		tlsPart("cert-km-admin", "cert-km-admin", c06TLS(mainCh, 3, false, now-300, false, false, false), chAdmin, "", "admin", true, c06KeyMain, false, false),
-		tlsPart("cert-km-denied-key", "cert-km", c06TLS(mainCh, 1, true, now-300, false, false, false), chDenied, "", "alice", true, c06KeyDenied, false, false),
-		tlsPart("cert-ip-inside", "cert-ip-inside", c06TLS(roleCh, 4, false, ipNB, false, true, true), chIP, "10.1.2.3:4711", "svc-automation", false, c06KeyMain, true, false),
-		tlsPart("cert-ip-outside", "cert-ip-outside", c06TLS(roleCh, 4, false, ipNB, false, false, true), chIP, "192.168.1.1:4711", "svc-automation", false, c06KeyMain, false, true)}
+		tlsPart("cert-km-alice", "cert-km", c06TLS(mainCh, 1, false, now-300, c06NoIP, false), chAlice, "", "alice", true, c06KeyMain, false, true),
+		tlsPart("cert-km-admin", "cert-km-admin", c06TLS(mainCh, 3, false, now-300, c06NoIP, false), chAdmin, "", "admin", true, c06KeyMain, false, false),
+		tlsPart("cert-km-denied-key", "cert-km", c06TLS(mainCh, 1, true, now-300, c06NoIP, false), chDenied, "", "alice", true, c06KeyDenied, false, false),
+		tlsPart("cert-ip-inside", "cert-ip-inside", c06TLS(roleCh, 4, false, ipNB, c06IPOf(tenB, "10.1.2.3:4711"), true), chIP, "10.1.2.3:4711", "svc-automation", false, c06KeyMain, true, false),
+		tlsPart("cert-ip-outside", "cert-ip-outside", c06TLS(roleCh, 4, false, ipNB, c06IPOf(tenB, "192.168.1.1:4711"), true), chIP, "192.168.1.1:4711", "svc-automation", false, c06KeyMain, false, true)}
 	for _, ce := range certs {
 		for _, ck := range cookies {
 			for _, ba := range basics {
@@ -731,7 +896,7 @@ var c06Gates = map[string]c06Gate{
 	"runtimeState.webauthnBeginRegistration":           {kind: "mask", mask: "webui", extra: "self-or-admin-u2f", exercised: c06EffChange, targets: []string{"alice", "bob", "admin"}},
 	"runtimeState.webauthnFinishRegistration":          {kind: "mask", mask: "webui", extra: "self-or-admin-u2f", exercised: c06EffChange, targets: []string{"alice", "bob", "admin"}},
 	"runtimeState.webauthnAuthLogin":                   {kind: "mask", mask: "any", exercised: c06EffStart},
-	"runtimeState.webauthnAuthFinish":                  {kind: "mask", mask: "any"},
+	"runtimeState.webauthnAuthFinish":                  {kind: "mask", mask: "any", exercised: c06EffChange | c06EffSigned},
 	"runtimeState.VIPAuthHandler":                      {kind: "mask", mask: "any", exercised: c06EffSigned},
 	"runtimeState.u2fTokenManagerHandler":              {kind: "mask", mask: "webui", extra: "self-or-admin-u2f", exercised: c06EffChange, targets: []string{"alice", "bob", "admin"}},
 	"runtimeState.oauth2DoRedirectoToProviderHandler":  {kind: "public"},
@@ -746,7 +911,7 @@ var c06Gates = map[string]c06Gate{
 	"runtimeState.TOTPAuthHandler":                     {kind: "mask", mask: "any", exercised: c06EffChange | c06EffSigned},
 	"runtimeState.Okta2FAuthHandler":                   {kind: "mask", mask: "any", exercised: c06EffSigned},
 	"runtimeState.oktaPushStartHandler":                {kind: "mask", mask: "any", exercised: c06EffStart},
-	"runtimeState.oktaPollCheckHandler":                {kind: "mask", mask: "any"},
+	"runtimeState.oktaPollCheckHandler":                {kind: "mask", mask: "any", exercised: c06EffStart | c06EffSigned},
 	"runtimeState.requestAwsRoleCertificateHandler":    {kind: "own", exercised: c06EffSigned},
 	"runtimeState.BootstrapOtpAuthHandler":             {kind: "mask", mask: "any", exercised: c06EffChange | c06EffSigned},
 	"runtimeState.SendAuthDocumentHandler":             {kind: "mask", mask: "webui", exercised: c06EffSigned},
@@ -855,6 +1020,7 @@ type c06Fakes struct {
 	vipPushes  int
 	okta       *httptest.Server
 	oktaPushes int
+	oktaApprovals int // verify calls answered with the owner's approval
 }
 
 func c06VIPHandler(f *c06Fakes) http.Handler {
@@ -979,7 +1145,9 @@ func (p *c06Prober) resetMaps() {
 	st.localAuthData = make(map[string]localUserData)
 	if p.signChallenge != nil {
 		// alice is in the middle of a hardware-token login: /u2f/SignResponse can succeed
-		st.localAuthData["alice"] = localUserData{U2fAuthChallenge: p.signChallenge, ExpiresAt: time.Now().Add(time.Hour)}
+		// ... and of a WebAuthn login (/webauthn/AuthFinish can succeed with the token's assertion)
+		st.localAuthData["alice"] = localUserData{U2fAuthChallenge: p.signChallenge, ExpiresAt: time.Now().Add(time.Hour),
+			WebAuthnChallenge: &webauthn.SessionData{Challenge: c06WAChallenge, UserID: []byte("alice"), AllowedCredentialIDs: [][]byte{p.dev.keyHandle}}}
 	}
 	st.vipPushCookie = map[string]pushPollTransaction{c06PollCookie: {Username: "alice", TransactionID: "tx-approved", ExpiresAt: time.Now().Add(time.Hour)}}
 	st.pendingOauth2 = make(map[string]pendingAuth2Request)
@@ -1103,6 +1271,17 @@ func (p *c06Prober) serve(req *http.Request) c06Obs {
 	if bytes.Contains(rr.Body.Bytes(), []byte("vrfcanary")) {
 		o.effects |= c06EffRead
 	}
+	if req.URL.Path == webAuthnAuthFinishPath && (rr.Code == http.StatusOK || rr.Code == http.StatusInternalServerError) {
+		// a verified WebAuthn assertion stores the token's new counter with `go SaveUserProfile(...)` (also when the
+		// session cannot be raised afterwards because the request has no cookie: 500): wait until the write has
+		// landed (it always comes; otherwise it would hit a later probe)
+		for i := 0; i < 1000; i++ {
+			if _, d := p.tableRows(); d != p.baseDig {
+				break
+			}
+			time.Sleep(2 * time.Millisecond)
+		}
+	}
 	if _, d := p.tableRows(); d != p.baseDig {
 		o.effects |= c06EffChange
 		p.restoreTables()
@@ -1149,7 +1328,8 @@ func (p *c06Prober) build(route verifRoute, key, method, target string, own bool
 	case "runtimeState.u2fSignResponse":
 		body = string(c06U2FSignResponse(p.dev, p.signChallenge, u2fTrustedFacets[0]))
 	case "runtimeState.webauthnAuthFinish":
-		body = "{}"
+		// the software token's assertion for the WebAuthn login pending for alice
+		body = string(p.dev.assertion(c06WAChallenge, p.env.state.webAuthn.Config.RPOrigin, u2fAppID))
 	case "runtimeState.addUserHandler":
 		form.Set("username", "vrfnewuser")
 	case "runtimeState.deleteUserHandler", "runtimeState.generateBootstrapOTP":
@@ -1455,6 +1635,7 @@ func TestVerif_C06(t *testing.T) {
 	denySweeps := true
 	var shapeCoq []string
 	var gateCases, gateIdx []string
+	var wgCases, wgIdx, wrCases, wrIdx []string
 	var groups, routeIdx []string
 	nRoute := 0
 	groupOffset := 0
@@ -1499,6 +1680,7 @@ func TestVerif_C06(t *testing.T) {
 				shapeCoq = append(shapeCoq, fmt.Sprintf("(%s, %s) (* %s *)", s.tls, s.cred, s.name))
 			}
 			c06GateCases(p, thorough, &gateCases, &gateIdx)
+			wgCases, wgIdx, wrCases, wrIdx = c06WindowCases(p, hit)
 		}
 		if ci == 0 {
 			c06RealTLS(p, hit)
@@ -1618,14 +1800,33 @@ func TestVerif_C06(t *testing.T) {
 					loggedN = 255 // the access log entry was never written
 				}
 				cases = append(cases, fmt.Sprint(c06Pack([][2]int{{si, 10}, {c06MethN(method), 2}, {oc, 2}, {c06User(target), 8}, {ownN, 1}, {loggedN, 8}, {obs.effects, 4}, {dl, 6}})))
-				routeIdx = append(routeIdx, fmt.Sprintf("%d\tconfig=%s webui=%v %s %s cred=%s origin=%q referer=%q target=%q own=%v deny-list=%s -> status=%d user=%q effects=%v",
-					nRoute, cfg.name, cfg.webui, method, route.Path, s.name, o.origin, o.referer, target, own, d.name, obs.status, obs.user, c06EffNames(obs.effects)))
+				routeIdx = append(routeIdx, fmt.Sprintf("%d\tconfig=%s webui=%v %s %s handler=%s cred=%s class=%s origin=%q referer=%q target=%q own=%v deny-list=%s -> status=%d user=%q effects=%v",
+					nRoute, cfg.name, cfg.webui, method, route.Path, key, strings.ReplaceAll(s.name, " ", "_"), sclass, o.origin, o.referer, target, own, d.name, obs.status, obs.user, c06EffNames(obs.effects)))
 				nRoute++
 				p.setDeny(0)
 			}
 			for si := range p.shapes {
 				s := &p.shapes[si]
 				if s.formLogin && key != "runtimeState.loginHandler" {
+					continue
+				}
+				if s.ipSweep {
+					// the routes that hand signed material to IP-restricted certificates (thorough: every
+					// route whose mask has the bit), configuration A
+					if cfg.name != "A" || gate.kind != "mask" || (gate.mask != "any" && gate.mask != "ipcert") {
+						continue
+					}
+					if !thorough && key != "runtimeState.refreshRoleRequestingCertGenHandler" && key != "runtimeState.certGenHandler" {
+						continue
+					}
+					target := targets[0]
+					if key == "runtimeState.certGenHandler" {
+						target = "svc-automation"
+					}
+					probe(si, "POST", 0, target, false, 0)
+					if key == "runtimeState.refreshRoleRequestingCertGenHandler" || thorough {
+						probe(si, "GET", 0, target, false, 0)
+					}
 					continue
 				}
 				if s.combo {
@@ -1749,7 +1950,7 @@ func TestVerif_C06(t *testing.T) {
 	// ---- Coq
 	var sb strings.Builder
 	sb.WriteString(coqCaseHeader)
-	sb.WriteString("From KM Require Import Base.Cases Model.Auth Model.AuthGate Model.Routes Model.RouteCases.\nOpen Scope N_scope.\n")
+	sb.WriteString("From KM Require Import Base.Cases Model.Auth Model.AuthGate Model.Routes Model.RouteCases.\nFrom KM Require Model.IPExt.\nOpen Scope N_scope.\n")
 	sb.WriteString(fmt.Sprintf("Definition now : Z := %s.\n", coqZ(now)))
 	sb.WriteString("Definition shapes : list shape_t := [\n " + strings.Join(shapeCoq, ";\n ") + "].\n")
 	var denyCoq []string
@@ -1759,6 +1960,12 @@ func TestVerif_C06(t *testing.T) {
 	sb.WriteString("Definition denies : list (list N) := [\n " + strings.Join(denyCoq, ";\n ") + "].\n")
 	sb.WriteString("Definition webui_cases : list (list N * N) := [\n " + strings.Join(webuiCases, ";\n ") + "].\n")
 	sb.WriteString("Definition c06_webui_mismatches := Eval vm_compute in mismatches webui_bad webui_cases.\nPrint c06_webui_mismatches.\n")
+	sb.WriteString("Definition wgate_cases : list wgate := [\n " + strings.Join(wgCases, ";\n ") + "].\n")
+	sb.WriteString("Definition c06_window_gate_mismatches := Eval vm_compute in mismatches wgate_bad wgate_cases.\nPrint c06_window_gate_mismatches.\n")
+	sb.WriteString("Definition c06_window_gate_violating := Eval vm_compute in mismatches wgate_violating wgate_cases.\nPrint c06_window_gate_violating.\n")
+	sb.WriteString("Definition wroute_cases : list wroute := [\n " + strings.Join(wrCases, ";\n ") + "].\n")
+	sb.WriteString("Definition c06_window_route_mismatches := Eval vm_compute in mismatches wroute_bad wroute_cases.\nPrint c06_window_route_mismatches.\n")
+	sb.WriteString("Definition c06_window_route_violating := Eval vm_compute in mismatches wroute_violating wroute_cases.\nPrint c06_window_route_violating.\n")
 	var gchunks, rchunks []string
 	for i := 0; i < len(gateCases); i += 3000 {
 		j := i + 3000
@@ -1770,12 +1977,14 @@ func TestVerif_C06(t *testing.T) {
 	}
 	sb.WriteString("Definition gate_result := Eval vm_compute in merge_chunks [" + strings.Join(gchunks, "; ") + "].\n")
 	sb.WriteString("Definition c06_gate_mismatches := Eval vm_compute in chunk_first gate_result.\nPrint c06_gate_mismatches.\n")
+	sb.WriteString("Definition c06_gate_violating := Eval vm_compute in chunk_violating gate_result.\nPrint c06_gate_violating.\n")
 	for k, g := range groups {
 		sb.WriteString(g)
 		rchunks = append(rchunks, fmt.Sprintf("rv_%d", k))
 	}
 	sb.WriteString("Definition route_result := Eval vm_compute in merge_chunks [" + strings.Join(rchunks, "; ") + "].\n")
 	sb.WriteString("Definition c06_route_mismatches := Eval vm_compute in chunk_first route_result.\nPrint c06_route_mismatches.\n")
+	sb.WriteString("Definition c06_route_violating := Eval vm_compute in chunk_violating route_result.\nPrint c06_route_violating.\n")
 	sb.WriteString("Definition c06_route_mismatch_count := Eval vm_compute in chunk_bad route_result.\nPrint c06_route_mismatch_count.\n")
 	sb.WriteString("Definition c06_gate_mismatch_count := Eval vm_compute in chunk_bad gate_result.\nPrint c06_gate_mismatch_count.\n")
 	sb.WriteString("Definition c06_ncases := Eval vm_compute in (chunk_total gate_result + chunk_total route_result).\nPrint c06_ncases.\n")
@@ -1785,6 +1994,10 @@ func TestVerif_C06(t *testing.T) {
 	ioutil.WriteFile(filepath.Join(verifOut(), "CasesC06_gate.idx"), []byte(strings.Join(gateIdx, "\n")), 0644)
 	ioutil.WriteFile(filepath.Join(verifOut(), "CasesC06_route.idx"), []byte(strings.Join(routeIdx, "\n")), 0644)
 	ioutil.WriteFile(filepath.Join(verifOut(), "CasesC06_webui.idx"), []byte(strings.Join(webuiCases, "\n")), 0644)
+	ioutil.WriteFile(filepath.Join(verifOut(), "CasesC06_wgate.idx"), []byte(strings.Join(wgIdx, "\n")), 0644)
+	ioutil.WriteFile(filepath.Join(verifOut(), "CasesC06_wroute.idx"), []byte(strings.Join(wrIdx, "\n")), 0644)
+	res.Extra["window_gate_calls"] = len(wgCases)
+	res.Extra["window_route_probes"] = len(wrCases)
 	res.sample(map[string]interface{}{"route": "/api/v0/manageU2FToken", "credential": "cookie-alice-password+u2f", "method": "GET", "referer": "https://evil.example.net/x.html", "expected": "no effect"})
 	res.sample(map[string]interface{}{"route": "/v1/refreshRoleRequestingCert", "credential": "cert-ip-loopback-xff", "method": "POST", "expected": "refused"})
 	if len(routeIdx) > 10 {
@@ -1964,15 +2177,30 @@ func c06GateCases(p *c06Prober, thorough bool, cases, idx *[]string) {
 		}
 		*cases = append(*cases, fmt.Sprintf("(%d,%d)", c06Pack([][2]int{{si, 10}, {c06MethN(method), 2}, {oc, 2}, {mask, 16}, {adm, 1}, {user, 8}, {dl, 6}}),
 			c06Pack([][2]int{{level, 16}, {code, 10}, {int(dt + 16384), 16}})))
-		*idx = append(*idx, fmt.Sprintf("%d\tcheckAuth mask=%d %s cred=%s origin=%q referer=%q deny-list=%s%v -> admitted=%d user=%d level=%d code=%d", n, mask, method, s.name, o.origin, o.referer, d.name, d.ids, adm, user, level, code))
+		*idx = append(*idx, fmt.Sprintf("%d\tcheckAuth mask=%d %s cred=%s class=%s origin=%q referer=%q deny-list=%s%v -> admitted=%d user=%d level=%d code=%d", n, mask, method, strings.ReplaceAll(s.name, " ", "_"), sclass, o.origin, o.referer, d.name, d.ids, adm, user, level, code))
 		n++
 	}
 	comboMasks := []int{0, p.webui, p.webui | AuthTypeKeymasterX509, AuthTypeAny, AuthTypeIPCertificate, AuthTypeKeymasterX509, AuthTypePassword,
 		AuthTypePassword | AuthTypeKeymasterX509, AuthTypeU2F, AuthTypeU2F | AuthTypeIPCertificate, AuthTypeAny &^ AuthTypeKeymasterX509, AuthTypeTOTP | AuthTypeFederated}
 	denyMasks := []int{AuthTypeKeymasterX509, p.webui | AuthTypeKeymasterX509, AuthTypeAny, AuthTypeIPCertificate | AuthTypeKeymasterX509, AuthTypePassword | AuthTypeKeymasterX509}
+	ipMasks := []int{AuthTypeIPCertificate, AuthTypeAny, AuthTypeIPCertificate | AuthTypeKeymasterX509, p.webui | AuthTypeKeymasterX509}
 	for si := range p.shapes {
 		s := &p.shapes[si]
 		if s.formLogin {
+			continue
+		}
+		if s.ipSweep {
+			// (prefix length, peer position): the masks that take IP certificates, one that does not
+			ms := ipMasks
+			if thorough {
+				ms = masks
+			}
+			for _, mask := range ms {
+				call(si, mask, "POST", 0, 0)
+				if mask == AuthTypeIPCertificate || thorough {
+					call(si, mask, "GET", 0, 0)
+				}
+			}
 			continue
 		}
 		if s.combo {
@@ -2022,6 +2250,154 @@ func c06GateCases(p *c06Prober, thorough bool, cases, idx *[]string) {
 }
 
 
+// ---------------------------------------------------------------- the cookie's time window at its boundaries
+
+// Tokens are minted for each request relative to the clock at that moment (exp two seconds ago, a minute
+// minus one second ago, ..., nbf two seconds ahead, ...), the clock is read immediately before and after
+// the request, and both readings travel with the case: the model's window test is exact, the measured
+// interval is the only tolerance.  The oracle knows nothing but the claims and the readings: a cookie
+// whose exp lies before the first reading, or whose nbf lies after the second, establishes nothing.
+type c06Window struct {
+	name, class   string
+	nbf, exp, iat int64 // offsets from the clock at minting, seconds
+	basic         int   // 0 none, 1 alice good, 2 alice wrong password
+}
+
+var c06Windows = []c06Window{
+	{"expired-1h-ago", "cookie-expired-by-1h", -7200, -3600, -7200, 0},
+	{"expired-61s-ago", "cookie-expired-by-61s", -7200, -61, -7200, 0},
+	{"expired-59s-ago", "cookie-expired-by-59s", -7200, -59, -7200, 0},
+	{"expired-30s-ago", "cookie-expired-by-30s", -7200, -30, -7200, 0},
+	{"expired-2s-ago", "cookie-expired-by-2s", -7200, -2, -7200, 0},
+	{"expires-in-2s", "cookie-good", -7200, 2, -7200, 0},
+	{"expires-in-1h", "cookie-good", -7200, 3600, -7200, 0},
+	{"valid-since-2s", "cookie-good", -2, 7200, -2, 0},
+	{"not-valid-for-2s", "cookie-not-yet-valid-in-2s", 2, 7200, 2, 0},
+	{"not-valid-for-59s", "cookie-not-yet-valid-in-59s", 59, 7200, 59, 0},
+	{"not-valid-for-61s", "cookie-not-yet-valid-in-61s", 61, 7200, 61, 0},
+	{"issued-in-the-future", "cookie-good", -60, 7200, 600, 0},
+	{"issued-in-the-future-expired-2s-ago", "cookie-expired-by-2s", -7200, -2, 600, 0},
+	{"expired-2s-ago+basic-good", "cookie-expired-by-2s+basic-good", -7200, -2, -7200, 1},
+	{"expired-59s-ago+basic-good", "cookie-expired-by-59s+basic-good", -7200, -59, -7200, 1},
+	{"not-valid-for-2s+basic-good", "cookie-not-yet-valid-in-2s+basic-good", 2, 7200, 2, 1},
+	{"expires-in-2s+basic-bad", "cookie-good+basic-bad", -7200, 2, -7200, 2},
+}
+
+func c06WindowCases(p *c06Prober, hit func(verifHit)) (gc, gi, rc, ri []string) {
+	st := p.env.state
+	lvl := AuthTypePassword | AuthTypeU2F
+	mint := func(w c06Window) (tok string, nbf, exp, iat int64) {
+		t := time.Now().Unix()
+		nbf, exp, iat = t+w.nbf, t+w.exp, t+w.iat
+		return p.env.sessionJWT("alice", lvl, iat, nbf, exp), nbf, exp, iat
+	}
+	wc := func(w c06Window, nbf, exp, iat, b, a int64) string {
+		return fmt.Sprintf("(WC %s %s %s 1 %d %d %s %s)", coqZ(nbf), coqZ(exp), coqZ(iat), lvl, w.basic, coqZ(b), coqZ(a))
+	}
+	apply := func(w c06Window, req *http.Request, tok string) {
+		req.AddCookie(authCookie(tok))
+		switch w.basic {
+		case 1:
+			req.SetBasicAuth("alice", "alicepw")
+		case 2:
+			req.SetBasicAuth("alice", "wrong")
+		}
+	}
+	// what the oracle knows: the cookie establishes (alice, lvl) iff nbf <= reading <= exp for the readings the
+	// request can have made, all of them inside [b, a]; a basic-auth header next to a cookie establishes alice
+	// at the password level
+	outside := func(nbf, exp, b, a int64) bool { return exp*1e9 < b || nbf*1e9 > a }
+	masks := []int{p.webui, AuthTypeAny, p.webui | AuthTypeKeymasterX509, AuthTypePassword, AuthTypeU2F | AuthTypeIPCertificate}
+	for _, w := range c06Windows {
+		for _, mask := range masks {
+			for _, mo := range [][2]interface{}{{"GET", 0}, {"POST", 0}, {"POST", 1}} {
+				method, oi := mo[0].(string), mo[1].(int)
+				o := c06Origins[oi]
+				req := verifNewRequest(method, "/probe", nil)
+				if o.origin != "" {
+					req.Header.Set("Origin", o.origin)
+				}
+				oc := c06OriginClass(o.origin, o.referer, req.Host)
+				tok, nbf, exp, iat := mint(w)
+				apply(w, req, tok)
+				rw := &c06Writer{ResponseRecorder: httptest.NewRecorder()}
+				b := time.Now().UnixNano()
+				ai, err := st.checkAuth(rw, req, mask)
+				a := time.Now().UnixNano()
+				adm, user, level, code, oiat := 0, 0, 0, 0, int64(0)
+				if err == nil && ai != nil {
+					adm, user, level, oiat = 1, c06User(ai.Username), ai.AuthType, ai.IssuedAt.Unix()
+				} else if rw.wrote {
+					code = rw.code
+				}
+				p.res.eval(fmt.Sprintf("window-gate|%s|%d|%s|%d|%d|%d|%d", w.name, mask, method, adm, user, level, code), adm == 1)
+				p.res.bump("gate-call-window")
+				byPassword := w.basic == 1 && user == c06User("alice") && level == AuthTypePassword && mask&AuthTypePassword != 0
+				if adm == 1 && outside(nbf, exp, b, a) && !byPassword {
+					hit(verifHit{Key: "C06:gate-admits:" + w.class, Oracle: "checkAuth admits the subject of a session cookie outside its signed time window",
+						What: fmt.Sprintf("checkAuth(mask=%d) %s with a session cookie of alice with nbf = clock%+ds, exp = clock%+ds at the time of the request (%s) -> user %q level %d; clock before the call %d ns, after %d ns, exp %d s, nbf %d s",
+							mask, method, w.nbf, w.exp, w.name, ai.Username, level, b, a, exp, nbf),
+						Case:     map[string]interface{}{"credential": "cookie-" + w.name, "mask": mask, "method": method, "nbf_offset_s": w.nbf, "exp_offset_s": w.exp, "iat_offset_s": w.iat, "basic": w.basic},
+						Observed: map[string]interface{}{"user": ai.Username, "level": level, "clock_before_ns": b, "clock_after_ns": a, "exp_s": exp, "nbf_s": nbf}})
+				}
+				gc = append(gc, fmt.Sprintf("WG %s %d %d %d %d %d %d %d %s", wc(w, nbf, exp, iat, b, a), mask, c06MethN(method), oc, adm, user, level, code, coqZ(oiat)))
+				gi = append(gi, fmt.Sprintf("%d\tcheckAuth mask=%d %s origin=%q cred=cookie-%s class=%s (nbf=clock%+ds exp=clock%+ds iat=clock%+ds basic=%d) clock=[%d, %d]ns -> admitted=%d user=%d level=%d code=%d",
+					len(gi), mask, method, o.origin, w.name, w.class, w.nbf, w.exp, w.iat, w.basic, b, a, adm, user, level, code))
+			}
+		}
+	}
+	// ... and through representative routes: signed material, profile read, profile change
+	type rt struct{ key, method, target string }
+	rts := []rt{{"runtimeState.certGenHandler", "POST", "alice"}, {"runtimeState.profileHandler", "GET", ""}, {"runtimeState.GenerateNewTOTP", "GET", "alice"},
+		{"runtimeState.u2fTokenManagerHandler", "POST", "alice"}, {"runtimeState.idpOpenIDCAuthorizationHandler", "POST", "alice"}, {"runtimeState.u2fSignRequest", "GET", "alice"}}
+	byKey := map[string]verifRoute{}
+	for _, r := range verifRouteTable() {
+		byKey[c06RouteKey(r)] = r
+	}
+	for _, w := range c06Windows {
+		for _, q := range rts {
+			route, ok := byKey[q.key]
+			if !ok {
+				continue
+			}
+			req := p.build(route, q.key, q.method, q.target, false, nil)
+			tok, nbf, exp, iat := mint(w)
+			apply(w, req, tok)
+			b := time.Now().UnixNano()
+			obs := p.serve(req)
+			a := time.Now().UnixNano()
+			p.res.eval(fmt.Sprintf("window-route|%s|%s|%s|%s|%d", w.name, q.key, q.method, obs.user, obs.effects), obs.user != "" || obs.effects != 0)
+			p.res.bump("route-probe-window")
+			if obs.effects != 0 {
+				p.witnessed[q.key] |= obs.effects
+			}
+			desc := map[string]interface{}{"config": p.cfgName, "route": route.Path, "handler": q.key, "credential": "cookie-" + w.name, "method": q.method, "target": q.target,
+				"nbf_offset_s": w.nbf, "exp_offset_s": w.exp, "iat_offset_s": w.iat, "basic": w.basic}
+			observed := map[string]interface{}{"status": obs.status, "logged_user": obs.user, "effects": c06EffNames(obs.effects), "clock_before_ns": b, "clock_after_ns": a, "exp_s": exp, "nbf_s": nbf}
+			if outside(nbf, exp, b, a) && w.basic != 1 {
+				if obs.effects != 0 {
+					hit(verifHit{Key: fmt.Sprintf("C06:effect-without-credential:%s:%s", q.key, w.class), Oracle: "protected effect although the only session cookie of the request is outside its signed time window",
+						What: fmt.Sprintf("%s %s with a session cookie of alice with nbf = clock%+ds, exp = clock%+ds (%s): effects %v, status %d", q.method, route.Path, w.nbf, w.exp, w.name, c06EffNames(obs.effects), obs.status),
+						Case: desc, Observed: observed})
+				}
+				if obs.user != "" {
+					hit(verifHit{Key: fmt.Sprintf("C06:admitted-without-credential:%s:%s", q.key, w.class), Oracle: "the access log records an admitted identity although the only session cookie of the request is outside its signed time window",
+						What: fmt.Sprintf("%s %s with a session cookie of alice with nbf = clock%+ds, exp = clock%+ds (%s) was admitted as %q", q.method, route.Path, w.nbf, w.exp, w.name, obs.user),
+						Case: desc, Observed: observed})
+				}
+			}
+			loggedN := c06User(obs.user)
+			if obs.panic {
+				loggedN = 255
+			}
+			rc = append(rc, fmt.Sprintf("WR %s %s %d %d 0 %d %d %d", wc(w, nbf, exp, iat, b, a), coqStringLit(q.key), p.webui, c06MethN(q.method), c06User(q.target), loggedN, obs.effects))
+			ri = append(ri, fmt.Sprintf("%d\tconfig=%s %s %s handler=%s cred=cookie-%s class=%s (nbf=clock%+ds exp=clock%+ds iat=clock%+ds basic=%d) target=%q clock=[%d, %d]ns -> status=%d user=%q effects=%v",
+				len(ri), p.cfgName, q.method, route.Path, q.key, w.name, w.class, w.nbf, w.exp, w.iat, w.basic, q.target, b, a, obs.status, obs.user, c06EffNames(obs.effects)))
+		}
+	}
+	return
+}
+
 // ---------------------------------------------------------------- real TLS handshakes
 
 // The probes above hand the handlers a ConnectionState built by the harness.  Here the same
@@ -2045,10 +2421,12 @@ func c06RealTLS(p *c06Prober, hit func(verifHit)) {
 		leaf   *x509.Certificate
 		issuer *x509.Certificate
 		key    *ecdsa.PrivateKey
+		from   string // source address of the client socket ("" = 127.0.0.1)
+		inside int    // IP-restricted certificates: 1 = the source address is inside the block, -1 = outside (by the harness's arithmetic)
 	}
 	mk := func(name string, caDer []byte, signer crypto.Signer, issuer *x509.Certificate, cn string, key *verifKeys, ext []pkix.Extension) tc {
 		leaf, _ := verifClientChain(caDer, signer, cn, nb, &key.ec.PublicKey, ext)
-		return tc{name, leaf, issuer, key.ec}
+		return tc{name: name, leaf: leaf, issuer: issuer, key: key.ec}
 	}
 	loop := env127()
 	ipLeaf := func(cn, cidr string) *x509.Certificate {
@@ -2060,15 +2438,35 @@ func c06RealTLS(p *c06Prober, hit func(verifHit)) {
 		mk("km-alice", mainCA, st.Signer, mainCACert, "alice", p.mat.keys, nil),
 		mk("km-admin", mainCA, st.Signer, mainCACert, "admin", p.mat.keys, nil),
 		mk("km-denied-key", mainCA, st.Signer, mainCACert, "alice", p.mat.deniedKeys, nil),
-		{"ip-loopback-block", ipLeaf("svc-automation", "127.0.0.0/8"), roleCACert, p.mat.keys.ec},
-		{"ip-other-block", ipLeaf("svc-automation", "10.0.0.0/8"), roleCACert, p.mat.keys.ec},
+		{name: "ip-loopback-block", leaf: ipLeaf("svc-automation", "127.0.0.0/8"), issuer: roleCACert, key: p.mat.keys.ec, inside: 1},
+		{name: "ip-other-block", leaf: ipLeaf("svc-automation", "10.0.0.0/8"), issuer: roleCACert, key: p.mat.keys.ec, inside: -1},
 		mk("foreign-ca", p.mat.foreignCA.Raw, p.mat.foreignKey, p.mat.foreignCA, "admin", p.mat.keys, nil),
+	}
+	// a netblock that ends inside an octet, over real sockets: the client binds its source address inside the
+	// block, just outside it in the same whole leading octets, and in the neighbouring blocks (any 127/8 address
+	// is local)
+	{
+		part := c06Block{127<<24 | 16<<8, 20} // 127.0.16.0/20 = 127.0.16.0 .. 127.0.31.255
+		leaf := ipLeaf("svc-automation", part.String())
+		for _, from := range []uint32{127<<24 | 17<<8 | 5, 127<<24 | 31<<8 | 255, 127<<24 | 40<<8 | 7, 127<<24 | 32<<8, 127<<24 | 15<<8 | 255, 127<<24 | 1} {
+			in := -1
+			if part.holds(from) {
+				in = 1
+			}
+			certs = append(certs, tc{name: "ip-partial-octet-block-from-" + map[int]string{1: "inside", -1: "outside"}[in], leaf: leaf, issuer: roleCACert, key: p.mat.keys.ec, from: c06V4(from), inside: in})
+		}
 	}
 	type rq struct{ method, path, key string }
 	reqs := []rq{{"GET", usersPath, "runtimeState.usersHandler"}, {"POST", refreshRoleRequestingCertPath, "runtimeState.refreshRoleRequestingCertGenHandler"},
 		{"POST", certgenPath + "svc-automation", "runtimeState.certGenHandler"}, {"GET", "/u2f/SignRequest", "runtimeState.u2fSignRequest"}}
 	for _, c := range certs {
-		client := &http.Client{Transport: &http.Transport{TLSClientConfig: &tls.Config{InsecureSkipVerify: true,
+		dialer := &net.Dialer{Timeout: 5 * time.Second}
+		synthFrom := "127.0.0.1"
+		if c.from != "" {
+			dialer.LocalAddr = &net.TCPAddr{IP: net.ParseIP(c.from)}
+			synthFrom = c.from
+		}
+		client := &http.Client{Transport: &http.Transport{DialContext: dialer.DialContext, TLSClientConfig: &tls.Config{InsecureSkipVerify: true,
 			Certificates: []tls.Certificate{{Certificate: [][]byte{c.leaf.Raw}, PrivateKey: c.key}}}, DisableKeepAlives: true},
 			CheckRedirect: func(*http.Request, []*http.Request) error { return http.ErrUseLastResponse }}
 		for _, q := range reqs {
@@ -2088,7 +2486,7 @@ func c06RealTLS(p *c06Prober, hit func(verifHit)) {
 			_ = route
 			// synthetic
 			sreq := build()
-			withTLS(sreq, [][]*x509.Certificate{{c.leaf, c.issuer}}, "127.0.0.1:4711")
+			withTLS(sreq, [][]*x509.Certificate{{c.leaf, c.issuer}}, synthFrom+":4711")
 			so := p.serve(sreq)
 			// real
 			rreq := build()
@@ -2139,6 +2537,12 @@ func c06RealTLS(p *c06Prober, hit func(verifHit)) {
 				}
 				continue
 			}
+			// the property itself on the real connection: an IP-restricted certificate presented from a socket address
+			// outside its block establishes nothing (these leaves are signed by the role CA: no other credential)
+			if c.inside == -1 && err == nil && (ro.user != "" || ro.effects != 0) {
+				hit(verifHit{Key: "C06:real-tls:ip-certificate-outside-its-block:" + q.key, Oracle: "an IP-restricted certificate presented in a real TLS handshake from a socket address outside its netblock is let in",
+					What: fmt.Sprintf("%s %s with certificate %s (%s) from %s: user %q effects %v status %d", q.method, q.path, c.name, c.leaf.Subject.CommonName, synthFrom, ro.user, c06EffNames(ro.effects), ro.status), Case: desc})
+			}
 			if err != nil || ro.status != so.status || ro.user != so.user || ro.effects != so.effects {
 				hit(verifHit{Key: "C06:real-tls:" + c.name, Oracle: "a real TLS handshake and the harness-built connection state are treated differently",
 					What: fmt.Sprintf("%s %s with certificate %s: real handshake -> status %d user %q effects %v (err %v); synthetic chain [leaf, CA] from 127.0.0.1 -> status %d user %q effects %v",
@@ -2152,11 +2556,22 @@ func env127() string { return "127.0.0.1" }
 
 // ---------------------------------------------------------------- fake Okta
 
+// The fake Okta authn API: every user has a TOTP factor (any pass code is right) and a push factor.
+// The state token names the user, so the fake knows whose push is verified: admin has approved the push
+// on her phone (the verify call answers SUCCESS and no new push goes out), everybody else's push is
+// sent and stays WAITING.
 func c06OktaHandler(f *c06Fakes) http.Handler {
 	return http.HandlerFunc(func(w http.ResponseWriter, r *http.Request) {
 		w.Header().Set("Content-Type", "application/json")
 		if strings.Contains(r.URL.Path, "/factors/") {
+			var in struct{ StateToken string }
+			json.NewDecoder(r.Body).Decode(&in)
 			if strings.Contains(r.URL.Path, "push1") {
+				if in.StateToken == "st-admin" {
+					f.oktaApprovals++
+					json.NewEncoder(w).Encode(map[string]interface{}{"status": "SUCCESS"})
+					return
+				}
 				f.oktaPushes++
 				json.NewEncoder(w).Encode(map[string]interface{}{"status": "MFA_CHALLENGE", "factorResult": "WAITING"})
 				return
@@ -2171,7 +2586,7 @@ func c06OktaHandler(f *c06Fakes) http.Handler {
 			json.NewEncoder(w).Encode(map[string]interface{}{"errorCode": "E0000004"})
 			return
 		}
-		json.NewEncoder(w).Encode(map[string]interface{}{"stateToken": "st", "status": "MFA_REQUIRED", "expiresAt": time.Now().Add(time.Hour).Format(time.RFC3339),
+		json.NewEncoder(w).Encode(map[string]interface{}{"stateToken": "st-" + in.Username, "status": "MFA_REQUIRED", "expiresAt": time.Now().Add(time.Hour).Format(time.RFC3339),
 			"_embedded": map[string]interface{}{"user": map[string]interface{}{"id": "1", "profile": map[string]interface{}{"login": in.Username}},
 				"factors": []map[string]interface{}{{"id": "totp1", "factorType": "token:software:totp", "provider": "OKTA", "vendorName": "OKTA"},
 					{"id": "push1", "factorType": "push", "provider": "OKTA", "vendorName": "OKTA"}}}})
